@@ -27,8 +27,11 @@ CoverageOK(e) == LET x == e.expect keys == [i \in 1..Len(e.probes) |-> DstOf(x, 
    /\ {keys[i] : i \in 1..Len(keys)} = Denote(x.target)
    /\ \A k \in Denote(x.target) : Cardinality({i \in 1..Len(keys) : keys[i] = k}) = Mult(x.target, k)
 \* C17 / C05: every probe carries the expected source MAC / IP (and destination MAC)
+\* C11: when the destination MACs come from an ARP cache, each probe goes to the entry of its own destination address
+DstMacFor(x, b) == LET S == {i \in 1..Len(x.dstmacs) : x.dstmacs[i].ip = SubSeq(b, 31, 34)} IN
+                   IF x.dstmacs = <<>> THEN x.dstmac ELSE IF S = {} THEN <<>> ELSE x.dstmacs[CHOOSE i \in S : TRUE].mac
 SourceOK(e) == LET x == e.expect IN \A i \in 1..Len(e.probes) : LET b == e.probes[i].bytes IN
-   /\ SubSeq(b, 7, 12) = x.srcmac /\ SubSeq(b, 1, 6) = x.dstmac
+   /\ SubSeq(b, 7, 12) = x.srcmac /\ SubSeq(b, 1, 6) = DstMacFor(x, b)
    /\ (IF x.scan = "arp" THEN SubSeq(b, 29, 32) = x.srcip ELSE SubSeq(b, 27, 30) = x.srcip)
 \* ---- chunks: the scan is split into runs of at most 200 port ranges; chunk c covers probes Lo(c)..Hi(c) in capture order ----
 ChunkSizes(x) == x.chunkProbes
@@ -63,6 +66,15 @@ ConnsOK(e) == LET x == e.expect IN
    /\ {<<e.conns[i].ip, e.conns[i].port>> : i \in 1..Len(e.conns)} = Denote(x.target)
    /\ \A i \in 1..Len(e.conns) : e.conns[i].n = Mult(x.target, <<e.conns[i].ip, e.conns[i].port>>)
    /\ Len(e.records) = Len(e.conns)                       \* every server is a SOCKS5 proxy: each one reported once
+\* C19 on the wire: consecutive complete passes (each a permutation of the subnet), at least the rescan interval apart, until Ctrl-C;
+\* C14: with de-duplication every host is printed once however often it answers
+LiveOK(e) == LET x == e.expect n == x.naddr full == Len(e.probes) \div n IN
+   /\ full >= x.minPasses
+   /\ \A k \in 0..(full - 1) : {DstOf(x, e.probes[k * n + j])[1] : j \in 1..n} = Addrs(x.target)
+   /\ \A k \in 1..(full - 1) : e.probes[k * n + 1].t >= e.probes[k * n].t + x.intervalUs - Tol
+   /\ \A i, j \in 1..Len(e.records) : i # j => e.records[i].ip # e.records[j].ip
+   /\ {e.records[i].ip : i \in 1..Len(e.records)} = {SubSeq(e.injected[i].bytes, 29, 32) : i \in {k \in 1..Len(e.injected) : e.injected[k].done}}
+   /\ (e.sigintT > 0 => e.exitT <= e.sigintT + ExitBound)
 Clean(e) == ~e.panic /\ ~e.killed /\ e.stdoutComplete /\ e.drops = 0
 \* Each property's check looks at its own clause (VF_FOCUS); a run that crashed, hung or lost capture data is judged by the "clean" focus
 \* only (its other observations are incomplete).
@@ -75,6 +87,7 @@ RunOK(e) == LET x == e.expect IN
           [] x.kind = "sigint" -> (F("clean") => /\ (e.sigintT > 0 => e.exitT <= e.sigintT + ExitBound)                              \* C12
                                                   /\ \A i \in 1..Len(e.probes) : DstOf(x, e.probes[i]) \in Denote(x.target))
           [] x.kind = "app" -> (F("coverage") => e.exit = 0 /\ ConnsOK(e))
+          [] x.kind = "live" -> (F("live") => LiveOK(e))
           [] x.kind = "packet" -> /\ (F("coverage") => e.exit = 0 /\ CoverageOK(e))
                                   /\ (F("source") => SourceOK(e))
                                   /\ (F("delay") => DelayOK(e))
